@@ -37,12 +37,55 @@ def _worker(recs):
     return out
 
 
+def _dup_worker(recs):
+    from .. import gx
+    out = []
+    for r in recs:
+        # the faulted text, and the same text with the entries of every block reversed (the duplicate comes first)
+        ta = modelcase.render_text(r["blocks"])
+        rev = [dict(b, entries=list(reversed(b["entries"]))) for b in r["blocks"]]
+        tb = modelcase.render_text(rev)
+        res = []
+        for t in (ta, tb):
+            try:
+                ode = gx.load(t, name="m")
+                res.append(("accepted", gx.numpy_code(ode, [])))
+            except Exception as ex:  # noqa: BLE001
+                res.append(("rejected", type(ex).__name__))
+        out.append({"text": ta, "reversed": tb, "fault": r["fault"], "a": res[0][0], "b": res[1][0],
+                    "same_code": res[0] == res[1] if res[0][0] == "accepted" == res[1][0] else None})
+    return out
+
+
+def swapped_duplicates(chk, quick):
+    """A text with two conflicting definitions of one name: whether it is refused, and what is generated if it is
+    not, must not depend on which of the two is written first."""
+    consts = dict(CONSTS, NInter=1, FreeSchedule=False, EmitMod=0, BaseMod=41 if quick else 7, FaultEmitMod=7 if quick else 17)
+    cfg = tlc.make_cfg(spec="FSpec", constants=consts, invariants=["C08_AcceptIffWellFormed", "FEmit"])
+    res = tlc.run_tlc("MC_IllFormed", cfg, workers=chk.nproc, timeout=1800, constants_for_summary=consts)
+    recs = [r for r in res.records if r["fault"]["kind"].startswith("dup-")]
+    res.records = []
+    chk.add_tlc(res)
+    chunks = [recs[i::chk.nproc * 2] for i in range(chk.nproc * 2)]
+    n = 0
+    with cf.ProcessPoolExecutor(max_workers=chk.nproc) as ex:
+        for out in ex.map(_dup_worker, [c for c in chunks if c]):
+            for o in out:
+                n += 1
+                if o["a"] != o["b"] or o["same_code"] is False:
+                    chk.violation(f"C10:duplicate-order:{o['fault']['kind']}", o,
+                                  f"two definitions of {o['fault']['site']} ({o['fault']['kind']}): written in one order the text is "
+                                  f"{o['a']}, in the other {o['b']}" + ("" if o["same_code"] is not False else " with different generated code"))
+    chk.replayed += n
+    chk.extra["duplicate_order_texts"] = n
+
+
 def main(chk: core.Check, replay):
     if replay:
         return core.replay_generic(chk, replay)
     quick = chk.tier == "quick"
     consts = dict(CONSTS, NInter=1 if quick else 2, FreeSchedule=False, EmitMod=0,
-                  BaseMod=11 if quick else 97, PermEmitMod=23 if quick else 41)
+                  BaseMod=41 if quick else 97, PermEmitMod=11 if quick else 41)
     cfg = tlc.make_cfg(spec="PSpec", constants=consts,
                        invariants=["C10_SameModel", "C10_SameLayout", "C10_StillAccepted", "PEmit"])
     res = tlc.run_tlc("MC_Perm", cfg, workers=chk.nproc, timeout=3000, constants_for_summary=consts)
@@ -67,6 +110,7 @@ def main(chk: core.Check, replay):
             chk.violation(f"C10:{p.split(':')[0]}:{':'.join(p.split(':')[1:2])}:{o['perm']['kind']}:{'multi' if multi else 'single'}-component", o,
                           f"permutation {o['perm']['kind']} of the text: {p}")
     chk.extra["permutations"] = kinds
+    swapped_duplicates(chk, quick)
     chk.sample({"text": out[0]["text"], "permuted": out[0]["permuted"], "perm": out[0]["perm"]})
 
 
